@@ -637,9 +637,11 @@ func (m *MayPanic) condFacts(e ast.Expr, pol bool) mpFacts {
 		if IsNil(m.info, Y) {
 			if op == token.NEQ {
 				f["nn:"+es(X)] = 1
+				f["clean:"+es(X)] = 1
 			}
 		} else if IsNil(m.info, X) && op == token.NEQ {
 			f["nn:"+es(Y)] = 1
+			f["clean:"+es(Y)] = 1
 		}
 		// lower bounds: i > 0, i >= 1
 		if k, ok := m.constInt(Y); ok {
@@ -933,6 +935,17 @@ func (m *MayPanic) checkDeref(base ast.Expr, at ast.Expr, f mpFacts) {
 			return
 		}
 		if m.fd != nil && isParamOf(m.info, m.fd, v) {
+			// a parameter re-assigned from a nil-able source before this point, on a path without a
+			// nil test since, is no longer the caller's value
+			for _, a := range AssignmentsTo(m.info, m.fd.Body, v) {
+				if a.Rhs == nil || a.IsRange || a.Stmt == nil || a.Stmt.End() > at.Pos() || f["clean:"+x.Name] > 0 {
+					continue
+				}
+				if m.maybeNil(a.Rhs, a.ResultIx) {
+					m.report(PKNilDeref, at, false, fmt.Sprintf("%s is re-assigned from %s, which may be nil, and is dereferenced without a dominating nil test", x.Name, es(a.Rhs)), nil, 0)
+					return
+				}
+			}
 			// precondition on the parameter
 			m.report(PKNilDeref, at, true, "parameter: checked at call sites", v, 0)
 			if fn, ok := m.info.Defs[m.fd.Name].(*types.Func); ok {
@@ -1000,6 +1013,12 @@ func (m *MayPanic) maybeNil(e ast.Expr, resultIx int) bool {
 	case *ast.CallExpr:
 		if fn := Callee(m.info, x); fn != nil && (resultIx <= 0) {
 			return m.NilableResult[fn.Name()]
+		}
+		// a call through a value of a named function type (a callback parameter)
+		if tv, ok := m.info.Types[x.Fun]; ok && resultIx <= 0 {
+			if nt, ok := tv.Type.(*types.Named); ok {
+				return m.NilableResult[nt.Obj().Name()]
+			}
 		}
 	case *ast.Ident:
 		return x.Name == "nil"
@@ -1697,6 +1716,9 @@ func (m *MayPanic) assignFacts(l, r ast.Expr, f mpFacts) {
 	if pl := m.producerLen(r); pl > 0 {
 		f["len:"+ls] = pl
 	}
+	if _, isIdent := ast.Unparen(l).(*ast.Ident); isIdent && !m.maybeNil(r, -1) {
+		f["clean:"+ls] = 1
+	}
 	r = ast.Unparen(r)
 	if cl, ok := r.(*ast.CompositeLit); ok {
 		if t := m.info.TypeOf(cl); t != nil {
@@ -1803,7 +1825,14 @@ func (m *MayPanic) Run() {
 				m.fn = recvBase(fd) + "." + fd.Name.Name
 			}
 			m.loopVars = nil
-			m.block(fd.Body.List, mpFacts{})
+			// clean:p — the parameter still holds the caller's value, or a value tested non-nil
+			entry := mpFacts{}
+			for _, fl := range fd.Type.Params.List {
+				for _, n := range fl.Names {
+					entry["clean:"+n.Name] = 1
+				}
+			}
+			m.block(fd.Body.List, entry)
 		}
 	}
 	sort.SliceStable(m.Sites, func(i, j int) bool { return m.Sites[i].Pos < m.Sites[j].Pos })
